@@ -173,9 +173,17 @@ int main(int argc, char** argv) {
                 for (int i = 1; i <= N; ++i) bodyF[mb[i].getMobilizedBodyIndex()] = SpatialVec(vec(c["F"][i - 1]["t"]), vec(c["F"][i - 1]["f"]));
                 Vector tau(nu), ud(nu);
                 { int j = 0; for (int i = 0; i < N; ++i) for (int k = 0; k < mb[i + 1].getNumU(s); ++k, ++j) { ud[j] = c["ud"][i][k].dbl(); tau[j] = c["tau"][j].dbl(); } }
+                // some mobilizers are LOCKED at acceleration level to their ud: the lock then supplies the force the spec
+                // computed for them (nothing is applied there), and every udot is still ud
+                Vector tauApplied = tau;
+                { int j = 0; for (int i = 0; i < N; ++i) { const int n = mb[i + 1].getNumU(s);
+                    if (n && c["locked"][i].num()) { Vector lv(n); for (int k = 0; k < n; ++k) { lv[k] = ud[j + k]; tauApplied[j + k] = 0; }
+                                                     mb[i + 1].lockAt(s, lv, Motion::Acceleration); }
+                    j += n; } }
                 applied.setAllBodyForces(s, bodyF);
-                applied.setAllMobilityForces(s, tau);
+                applied.setAllMobilityForces(s, tauApplied);
                 system.realize(s, Stage::Acceleration);
+                { Vector mf; matter.findMotionForces(s, mf); js << ",\"motionF\":["; for (int j = 0; j < nu; ++j) js << (j ? "," : "") << num(mf[j]); js << "]"; }
                 js << ",\"udotF\":[";
                 for (int j = 0; j < nu; ++j) js << (j ? "," : "") << num(s.getUDot()[j]);
                 js << "]";
@@ -207,6 +215,41 @@ int main(int argc, char** argv) {
                 for (int i = 1; i <= N; ++i) { const SpatialVec r = mb[i].findMobilizerReactionOnParentAtFInGround(s);
                     js << (i > 1 ? "," : "") << "{\"t\":" << jv(r[0]) << ",\"f\":" << jv(r[1]) << "}"; }
                 js << "],\"errFreebody\":" << num(errFb) << ",\"errFindReaction\":" << num(errFind);
+            }
+            {   // multi-task station and frame Jacobians (repeated bodies and Ground allowed)
+                Array_<MobilizedBodyIndex> tb; Array_<Vec3> ts; const int nt = (int)c["tasks"].size();
+                Vector_<Vec3> tf(nt); Vector_<SpatialVec> tF(nt);
+                for (int k = 0; k < nt; ++k) { const mj::Value& t = c["tasks"][k];
+                    tb.push_back(mb[(int)t["b"].num()].getMobilizedBodyIndex()); ts.push_back(vec(t["st"]));
+                    tf[k] = vec(t["f"]); tF[k] = SpatialVec(vec(t["T"]), vec(t["f"])); }
+                Vector_<Vec3> JSu; matter.multiplyByStationJacobian(s, tb, ts, u, JSu);
+                Vector_<SpatialVec> JFu; matter.multiplyByFrameJacobian(s, tb, ts, u, JFu);
+                Vector JStF, JFtF; matter.multiplyByStationJacobianTranspose(s, tb, ts, tf, JStF); matter.multiplyByFrameJacobianTranspose(s, tb, ts, tF, JFtF);
+                double errExplicit = 0;
+                if (nu) { Matrix JS, JF; matter.calcStationJacobian(s, tb, ts, JS); matter.calcFrameJacobian(s, tb, ts, JF);
+                    Vector a = JS * u, b = JF * u;
+                    for (int k = 0; k < nt; ++k) for (int d = 0; d < 3; ++d) {
+                        errExplicit = std::max(errExplicit, std::abs(a[3 * k + d] - JSu[k][d]));
+                        errExplicit = std::max(errExplicit, std::abs(b[6 * k + d] - JFu[k][0][d]));
+                        errExplicit = std::max(errExplicit, std::abs(b[6 * k + 3 + d] - JFu[k][1][d])); }
+                    Vector tfv(3 * nt), tFv(6 * nt);
+                    for (int k = 0; k < nt; ++k) for (int d = 0; d < 3; ++d) { tfv[3 * k + d] = tf[k][d]; tFv[6 * k + d] = tF[k][0][d]; tFv[6 * k + 3 + d] = tF[k][1][d]; }
+                    errExplicit = std::max(errExplicit, (~JS * tfv - JStF).normInf());
+                    errExplicit = std::max(errExplicit, (~JF * tFv - JFtF).normInf()); }
+                js << ",\"taskV\":[";
+                for (int k = 0; k < nt; ++k) js << (k ? "," : "") << "{\"w\":" << jv(JFu[k][0]) << ",\"v\":" << jv(JFu[k][1]) << ",\"vs\":" << jv(JSu[k]) << "}";
+                js << "],\"JStF\":[";
+                for (int j = 0; j < nu; ++j) js << (j ? "," : "") << num(JStF[j]);
+                js << "],\"JFtF\":[";
+                for (int j = 0; j < nu; ++j) js << (j ? "," : "") << num(JFtF[j]);
+                js << "],\"errTaskExplicit\":" << num(errExplicit);
+                if (c["dyn"].num()) {
+                    Vector_<Vec3> bs; matter.calcBiasForStationJacobian(s, tb, ts, bs);
+                    Vector_<SpatialVec> bf; matter.calcBiasForFrameJacobian(s, tb, ts, bf);
+                    js << ",\"taskA0\":[";
+                    for (int k = 0; k < nt; ++k) js << (k ? "," : "") << "{\"aw\":" << jv(bf[k][0]) << ",\"a\":" << jv(bf[k][1]) << ",\"as\":" << jv(bs[k]) << "}";
+                    js << "]";
+                }
             }
             {   // fitting: the spec's X_FM / V_FM for a second coordinate set must be reproduced by the fitting calls
                 js << ",\"fit\":[";
